@@ -73,6 +73,12 @@ def enumerate_cases(tier, scope):
                     yield {'spec': tree, 'redeclare': [[path, second]], 'emissions': [['.'.join(path) + '.x', value]], 'ret': 0}
                 yield {'spec': tree, 'redeclare': [[path, second]], 'emissions': [['.'.join(path), {'x': 1}]], 'ret': 0}
                 yield {'spec': tree, 'redeclare': [[path, second]], 'emissions': [], 'ret': 0}
+    # output ports re-filed under another key of their namespace after the declaration (outputs are emitted, stored and
+    # checked at the end under the key)
+    refile_tree = pm.ns({'energy': pm.port(required=True, valid_type='int'), 'note': pm.port(required=False, valid_type='str'), 'sub': pm.ns({'q': pm.port(required=True, valid_type='int')}, required=False)}, dynamic=True)
+    for refile in ([[['energy'], 'final_energy']], [[['sub', 'q'], 'renamed']]):
+        for emissions in ([['final_energy', 1]], [['energy', 1]], [['final_energy', 's']], [['final_energy', 1], ['energy', 's']], [['final_energy', 1], ['sub.renamed', 2]], [['final_energy', 1], ['sub.q', 2]], [['energy', 1], ['sub.renamed', 2]], []):
+            yield {'spec': refile_tree, 'emissions': emissions, 'ret': 0, 'refile': refile}
     # a spec class with its own output port class (ProcessSpec.OUTPUT_PORT_TYPE) that refuses None
     strict_tree = pm.ns({'a': pm.port(required=False), 'b': pm.port(required=True, valid_type='int'), 'sub': pm.ns({'q': pm.port(required=False)}, dynamic=True)}, dynamic=True)
     for emissions in ([['a', None], ['b', 1]], [['b', 1], ['sub.q', None]], [['b', 1], ['sub', {'q': None}]], [['b', 1], ['a', 0]], [['b', 1], ['dyn', None]], [['b', 1], ['sub.dyn', None]], [['b', None]]):
@@ -214,7 +220,7 @@ def execute(case):
         viol.append({'clause': clause, 'detail': detail})
 
     declared_tree = case['spec']
-    tree = pm.redeclared(declared_tree, case.get('redeclare'))
+    tree = pm.refiled(pm.redeclared(declared_tree, case.get('redeclare')), case.get('refile'))
     emissions = case['emissions']
     late_items = {}
     in_step = list(emissions)
@@ -225,7 +231,7 @@ def execute(case):
             in_step = in_step[: len(in_step) - n]
     program = {
         'steps': [{'async': False, 'body': [['out', p, val] for p, val in in_step], 'ret': ['value', case.get('ret', 0)]}],
-        'spec': {'outputs': declared_tree, 'redeclare': case.get('redeclare') or []},
+        'spec': {'outputs': declared_tree, 'redeclare': case.get('redeclare') or [], 'refile': [['output', path, new] for path, new in case.get('refile') or []]},
         'snapshot_outputs': True,
     }
     if late_items:
